@@ -355,3 +355,139 @@ fn two_lockers() {
     }
 }
 rw_np_harness! { #[kani::unwind(5)] fn c12_rwlock_np_two_lockers() { two_lockers() } }
+
+
+// ---------------------------------------------------------------------------------------------
+// cancelled waiter (C12 "cancellation of waiters" / C09): H holds the write lock; the root W
+// blocks in write(); W's park gives up with Err(Canceled) at a solver-chosen moment (before,
+// after or together with the hand-off); H's whole guard drop lands at any atomic step of W's
+// give-up hand-shake.  W leaves through the cancel panic; afterwards no guard is alive, so
+// try_write must succeed.
+// ---------------------------------------------------------------------------------------------
+static mut CW_L: *const RwLock<u8> = std::ptr::null();
+static mut H_GUARD: Option<RwLockWriteGuard<'static, u8>> = None;
+static mut H_LEFT: bool = false;
+static mut W_CANCELED: bool = false;
+static mut QTAB: [u64; 4] = [0; 4];
+static mut QH: usize = 0;
+static mut QT: usize = 0;
+fn cw_q_push<T>(_q: &SegQueue<T>, v: T) {
+    np::point();
+    assert!(std::mem::size_of::<T>() == 8);
+    unsafe {
+        assert!(QT < 4);
+        QTAB[QT] = std::mem::transmute_copy::<T, u64>(&v);
+        QT += 1;
+    }
+    std::mem::forget(v);
+}
+fn cw_q_pop<T>(_q: &SegQueue<T>) -> Option<T> {
+    np::point();
+    unsafe {
+        if QH == QT {
+            None
+        } else {
+            let r = std::mem::transmute_copy::<u64, T>(&QTAB[QH]);
+            QH += 1;
+            Some(r)
+        }
+    }
+}
+fn run_h_drop() {
+    unsafe {
+        H_LEFT = false;
+        let g = H_GUARD.take();
+        drop(g);
+    }
+}
+fn cw_hook() {
+    unsafe {
+        if np::DEPTH == 0 && H_LEFT && kani::any() {
+            np::nested(run_h_drop);
+        }
+    }
+}
+fn cw_unpark(b: &Blocker) {
+    np::point();
+    unsafe { *crate::sync::blocking::verif_kani::blocker_token(b) = 1 };
+}
+fn cw_park(b: &Blocker, _t: Option<std::time::Duration>) -> Result<(), ParkError> {
+    np::point();
+    let tok = crate::sync::blocking::verif_kani::blocker_token(b);
+    unsafe {
+        if kani::any() {
+            W_CANCELED = true;
+            return Err(ParkError::Canceled);
+        }
+        if *tok == 0 && H_LEFT {
+            run_h_drop();
+        }
+        if kani::any() {
+            W_CANCELED = true;
+            return Err(ParkError::Canceled);
+        }
+        assert!(*tok != 0, "C12: blocked writer not woken when the write guard was dropped");
+        *tok = 0;
+        Ok(())
+    }
+}
+fn cw_cancel_panic() -> ! {
+    unsafe {
+        assert!(W_CANCELED, "C09: cancel panic in a waiter that was never cancelled");
+        np::HOOK = None;
+        if H_LEFT {
+            run_h_drop();
+        }
+        let l = &*CW_L;
+        assert!(!l.is_poisoned(), "C09: lock poisoned by a cancellation");
+        let g = take_write(l.try_write(), false);
+        assert!(g.is_some(), "C12/C09: no guard is alive but try_write reports WouldBlock (lock handed to a cancelled waiter and never released)");
+        std::mem::forget(g);
+        kani::cover!(np::PREEMPTS > 0, "the holder's release landed inside the cancelled waiter's give-up hand-shake");
+        kani::cover!(np::PREEMPTS == 0, "cancel without overlap");
+    }
+    kani::assume(false);
+    unreachable!()
+}
+#[kani::proof]
+#[kani::unwind(4)]
+#[kani::stub(core::sync::atomic::Atomic::<usize>::load, sa::usize_load)]
+#[kani::stub(core::sync::atomic::Atomic::<usize>::compare_exchange, sa::usize_cas)]
+#[kani::stub(core::sync::atomic::Atomic::<usize>::fetch_add, sa::usize_fetch_add)]
+#[kani::stub(core::sync::atomic::Atomic::<usize>::fetch_sub, sa::usize_fetch_sub)]
+#[kani::stub(core::sync::atomic::Atomic::<bool>::load, sa::bool_load)]
+#[kani::stub(core::sync::atomic::Atomic::<bool>::store, sa::bool_store)]
+#[kani::stub(core::sync::atomic::Atomic::<bool>::swap, sa::bool_swap)]
+#[kani::stub(crossbeam::queue::SegQueue::push, cw_q_push)]
+#[kani::stub(crossbeam::queue::SegQueue::pop, cw_q_pop)]
+#[kani::stub(may_queue::mpsc::Queue::push, mq_push_unreachable)]
+#[kani::stub(may_queue::mpsc::Queue::pop, mq_pop_unreachable)]
+#[kani::stub(crate::sync::blocking::Blocker::park, cw_park)]
+#[kani::stub(crate::sync::blocking::Blocker::unpark, cw_unpark)]
+#[kani::stub(crate::cancel::trigger_cancel_panic, cw_cancel_panic)]
+#[kani::stub(crate::coroutine_impl::is_coroutine, is_coroutine_false)]
+#[kani::stub(std::thread::panicking, np::panicking_stub)]
+#[kani::stub(stdpanic::catch_unwind, rt::catch_unwind_stub)]
+#[kani::stub(stdpanic::take_hook, rt::take_hook_stub)]
+#[kani::stub(stdpanic::set_hook, rt::set_hook_stub)]
+#[kani::stub(std::sync::Arc::drop_slow, rt::arc_drop_slow_stub)]
+fn c12_rwlock_cancelled_writer_d1() {
+    let l: &'static RwLock<u8> = Box::leak(Box::new(RwLock::new(0u8)));
+    unsafe {
+        CW_L = l;
+        H_GUARD = Some(lr_write(l.write()));
+        H_LEFT = true;
+        np::HOOK = Some(cw_hook);
+    }
+    let r = l.write();
+    unsafe {
+        // not cancelled (or the wake-up won): W holds the lock now
+        assert!(r.is_ok());
+        assert!(!H_LEFT, "C12: second writer admitted while the first write guard is alive");
+        np::HOOK = None;
+        drop(r);
+        let g = take_write(l.try_write(), false);
+        assert!(g.is_some());
+        std::mem::forget(g);
+    }
+}
